@@ -24,39 +24,48 @@ structure EF (e : Nat) : Prop where
   tri : s.fc e ≠ 0 → s.nxt (s.nxt (s.nxt e)) = e
   rv_lt : s.rv e < s.nE
   rv_rv : s.rv (s.rv e) = e
+  fc_lt : s.fc e < s.nF
 
-theorem ef (hl : s.LinksOK) (e : Nat) (he : e < s.nE) : s.EF e := by
+/-- the link facts the locate proofs use (they follow from `LinksOK`, and from the link invariant
+`LInv` of the insertion model) -/
+structure LF : Prop where
+  ef : ∀ e, e < s.nE → s.EF e
+  faces : 1 ≤ s.nF
+  vsz : s.vOut.size = s.nV
+
+theorem LF.of_linksOK (hl : s.LinksOK) : s.LF := by
+  refine ⟨fun e he => ?_, hl.2.1, hl.2.2.2.1⟩
   have h := hl.2.2.2.2 e he
   exact ⟨he, h.1, h.2.1, h.2.2.1, h.2.2.2.2.2.1, h.2.2.2.2.2.2.1, h.2.2.2.2.2.2.2.1,
     h.2.2.2.2.2.2.2.2.1, h.2.2.2.2.2.2.2.2.2.2.1, h.2.2.2.2.2.2.2.2.2.2.2.2.1,
-    h.2.2.2.2.2.2.2.2.2.2.2.2.2⟩
+    h.2.2.2.2.2.2.2.2.2.2.2.2.2, h.2.2.2.1⟩
 
 /-- reversing an edge swaps its end points -/
-theorem A_rv (hl : s.LinksOK) (e : Nat) (he : e < s.nE) : s.A (s.rv e) = s.B e := rfl
+theorem A_rv (hl : s.LF) (e : Nat) (he : e < s.nE) : s.A (s.rv e) = s.B e := rfl
 
-theorem B_rv (hl : s.LinksOK) (e : Nat) (he : e < s.nE) : s.B (s.rv e) = s.A e := by
+theorem B_rv (hl : s.LF) (e : Nat) (he : e < s.nE) : s.B (s.rv e) = s.A e := by
   unfold St.B St.A St.dst
-  rw [(s.ef hl e he).rv_rv]
+  rw [(hl.ef e he).rv_rv]
 
-theorem sq_rv (hl : s.LinksOK) (q : Pt) (e : Nat) (he : e < s.nE) : s.sq q (s.rv e) = - s.sq q e := by
+theorem sq_rv (hl : s.LF) (q : Pt) (e : Nat) (he : e < s.nE) : s.sq q (s.rv e) = - s.sq q e := by
   unfold St.sq
   rw [s.A_rv hl e he, s.B_rv hl e he, orient_rev]
 
-theorem fc_prv (hl : s.LinksOK) (e : Nat) (he : e < s.nE) : s.fc (s.prv e) = s.fc e := by
-  have f := s.ef hl e he
-  have f2 := s.ef hl (s.prv e) f.prv_lt
+theorem fc_prv (hl : s.LF) (e : Nat) (he : e < s.nE) : s.fc (s.prv e) = s.fc e := by
+  have f := hl.ef e he
+  have f2 := hl.ef (s.prv e) f.prv_lt
   rw [← f2.fc_nxt, f.nxt_prv]
 
 /-- the triangle of an inner half-edge: corners of `nxt e` and `prv e` in terms of `e` -/
-theorem tri_nxt (hl : s.LinksOK) (e : Nat) (he : e < s.nE) (hf : s.fc e ≠ 0) :
+theorem tri_nxt (hl : s.LF) (e : Nat) (he : e < s.nE) (hf : s.fc e ≠ 0) :
     s.A (s.nxt e) = s.B e ∧ s.B (s.nxt e) = s.C e ∧ s.C (s.nxt e) = s.A e := by
-  have f := s.ef hl e he
-  have fn := s.ef hl (s.nxt e) f.nxt_lt
+  have f := hl.ef e he
+  have fn := hl.ef (s.nxt e) f.nxt_lt
   have hfn : s.fc (s.nxt e) ≠ 0 := by rw [f.fc_nxt]; exact hf
   -- prv e = nxt (nxt e)
   have hp : s.prv e = s.nxt (s.nxt e) := by
     have := congrArg s.prv (f.tri hf)
-    have fnn := s.ef hl (s.nxt (s.nxt e)) fn.nxt_lt
+    have fnn := hl.ef (s.nxt (s.nxt e)) fn.nxt_lt
     rw [fnn.prv_nxt] at this
     exact this.symm
   refine ⟨?_, ?_, ?_⟩
@@ -64,17 +73,17 @@ theorem tri_nxt (hl : s.LinksOK) (e : Nat) (he : e < s.nE) (hf : s.fc e ≠ 0) :
   · unfold St.B St.C St.opp; rw [← fn.org_nxt, hp]
   · unfold St.C St.A St.opp; rw [f.prv_nxt]
 
-theorem tri_prv (hl : s.LinksOK) (e : Nat) (he : e < s.nE) (hf : s.fc e ≠ 0) :
+theorem tri_prv (hl : s.LF) (e : Nat) (he : e < s.nE) (hf : s.fc e ≠ 0) :
     s.A (s.prv e) = s.C e ∧ s.B (s.prv e) = s.A e ∧ s.C (s.prv e) = s.B e := by
-  have f := s.ef hl e he
-  have fp := s.ef hl (s.prv e) f.prv_lt
+  have f := hl.ef e he
+  have fp := hl.ef (s.prv e) f.prv_lt
   have hfp : s.fc (s.prv e) ≠ 0 := by rw [s.fc_prv hl e he]; exact hf
   have hn := s.tri_nxt hl (s.prv e) f.prv_lt hfp
   rw [f.nxt_prv] at hn
   exact ⟨hn.2.2.symm, hn.1.symm, hn.2.1.symm⟩
 
 /-- side queries of the three half-edges of the face of `e` as orientations of its corners -/
-theorem sq_tri (hl : s.LinksOK) (q : Pt) (e : Nat) (he : e < s.nE) (hf : s.fc e ≠ 0) :
+theorem sq_tri (hl : s.LF) (q : Pt) (e : Nat) (he : e < s.nE) (hf : s.fc e ≠ 0) :
     s.sq q e = orient (s.A e) (s.B e) q ∧
     s.sq q (s.nxt e) = orient (s.B e) (s.C e) q ∧
     s.sq q (s.prv e) = orient (s.C e) (s.A e) q := by
@@ -139,7 +148,7 @@ def LocInv (q : Pt) (e0 : Nat) (rot : Bool) : Prop :=
   e0 < s.nE ∧ (s.sq q e0 ≠ 0 → rot = decide (0 < s.sq q e0))
 
 /-- strict containment in the triangle of `e` transfers to the face's representative edge -/
-theorem inside_rep (hl : s.LinksOK) (ht : s.FaceTriples) (q : Pt) (e : Nat) (he : e < s.nE)
+theorem inside_rep (hl : s.LF) (ht : s.FaceTriples) (q : Pt) (e : Nat) (he : e < s.nE)
     (hf : s.fc e ≠ 0) (h1 : 0 < orient (s.A e) (s.B e) q) (h2 : 0 < orient (s.B e) (s.C e) q)
     (h3 : 0 < orient (s.C e) (s.A e) q) :
     StrictlyInsideTri (s.A (s.fe (s.fc e))) (s.B (s.fe (s.fc e))) (s.C (s.fe (s.fc e))) q := by
@@ -153,13 +162,13 @@ theorem inside_rep (hl : s.LinksOK) (ht : s.FaceTriples) (q : Pt) (e : Nat) (he 
     rw [t.1, t.2.1, t.2.2]; exact ⟨h3, h1, h2⟩
 
 /-- **Soundness of one step**: a continuation re-establishes the invariant, a result is true. -/
-theorem locStep_sound (hl : s.LinksOK) (hc : s.CcwAllEdges) (ht : s.FaceTriples) (q : Pt)
+theorem locStep_sound (hl : s.LF) (hc : s.CcwAllEdges) (ht : s.FaceTriples) (q : Pt)
     (e0 : Nat) (rot : Bool) (hinv : s.LocInv q e0 rot) :
     (∀ e0' rot', s.locStep q e0 rot = .cont e0' rot' → s.LocInv q e0' rot') ∧
     (∀ r, s.locStep q e0 rot = .done r → s.LocateAnswerOK q r) := by
   obtain ⟨he0, hrot⟩ := hinv
-  have f0 := s.ef hl e0 he0
-  have hF : 1 ≤ s.nF := hl.2.1
+  have f0 := hl.ef e0 he0
+  have hF : 1 ≤ s.nF := hl.faces
   unfold locStep
   by_cases hA : s.A e0 = q
   · simp only [hA, if_true]
@@ -171,7 +180,7 @@ theorem locStep_sound (hl : s.LinksOK) (hc : s.CcwAllEdges) (ht : s.FaceTriples)
   · simp only [hB, if_true]
     refine ⟨fun _ _ h => (by cases h), ?_⟩
     intro r h; cases h
-    have := (s.ef hl (s.rv e0) f0.rv_lt).org_lt
+    have := (hl.ef (s.rv e0) f0.rv_lt).org_lt
     exact ⟨this, hB⟩
   simp only [hB, if_false]
   by_cases hz : s.sq q e0 = 0
@@ -182,7 +191,7 @@ theorem locStep_sound (hl : s.LinksOK) (hc : s.CcwAllEdges) (ht : s.FaceTriples)
     cases h
     have hlt : s.prv (if s.fc e0 = 0 then s.rv e0 else e0) < s.nE := by
       split
-      · exact (s.ef hl _ f0.rv_lt).prv_lt
+      · exact (hl.ef _ f0.rv_lt).prv_lt
       · exact f0.prv_lt
     refine ⟨hlt, ?_⟩
     intro hne
@@ -215,8 +224,8 @@ theorem locStep_sound (hl : s.LinksOK) (hc : s.CcwAllEdges) (ht : s.FaceTriples)
     cases h
     have hlt : (if rot then s.ccw e0 else s.nxt (s.rv e0)) < s.nE := by
       split
-      · unfold St.ccw; exact (s.ef hl _ f0.prv_lt).rv_lt
-      · exact (s.ef hl _ f0.rv_lt).nxt_lt
+      · unfold St.ccw; exact (hl.ef _ f0.prv_lt).rv_lt
+      · exact (hl.ef _ f0.rv_lt).nxt_lt
     refine ⟨hlt, ?_⟩
     intro hne
     rcases hcont with h | h
@@ -250,24 +259,24 @@ theorem locStep_sound (hl : s.LinksOK) (hc : s.CcwAllEdges) (ht : s.FaceTriples)
       · simp only [hpos, if_true]
         refine ⟨fun _ _ h => (by cases h), ?_⟩
         intro r h; cases h
-        have hfl : s.fc e0 < s.nF := (hl.2.2.2.2 e0 he0).2.2.2.1
+        have hfl : s.fc e0 < s.nF := (hl.ef e0 he0).fc_lt
         exact ⟨Nat.pos_of_ne_zero hf, hfl,
           s.inside_rep hl ht q e0 he0 hf h1 (by rw [← t.2.1]; exact hpos) h3⟩
       · simp only [hpos, if_false]
         refine ⟨?_, fun _ h => (by cases h)⟩
         intro e0' rot' h
         cases h
-        have fn := s.ef hl _ f0.nxt_lt
+        have fn := hl.ef _ f0.nxt_lt
         have hlt : (if s.fc (s.rv (s.nxt e0)) ≠ 0 then s.prv (s.rv (s.nxt e0)) else s.rv (s.nxt e0)) < s.nE := by
           split
-          · exact (s.ef hl _ fn.rv_lt).prv_lt
+          · exact (hl.ef _ fn.rv_lt).prv_lt
           · exact fn.rv_lt
         refine ⟨hlt, ?_⟩
         intro hne
         simp only [decide_eq_decide]; omega
   | false =>
     simp only [Bool.false_eq_true, if_false] at hs1 hout hrq0 hrqs he1 ⊢
-    have fr := s.ef hl _ f0.rv_lt
+    have fr := hl.ef _ f0.rv_lt
     have hf : s.fc (s.rv e0) ≠ 0 := hout
     have t := s.sq_tri hl q (s.rv e0) f0.rv_lt hf
     have hD := hc (s.rv e0) f0.rv_lt hf
@@ -292,25 +301,25 @@ theorem locStep_sound (hl : s.LinksOK) (hc : s.CcwAllEdges) (ht : s.FaceTriples)
       · simp only [hpos, if_true]
         refine ⟨fun _ _ h => (by cases h), ?_⟩
         intro r h; cases h
-        have hfl : s.fc (s.rv e0) < s.nF := (hl.2.2.2.2 _ f0.rv_lt).2.2.2.1
+        have hfl : s.fc (s.rv e0) < s.nF := (hl.ef _ f0.rv_lt).fc_lt
         exact ⟨Nat.pos_of_ne_zero hf, hfl,
           s.inside_rep hl ht q _ f0.rv_lt hf h1 h2 (by rw [← t.2.2]; exact hpos)⟩
       · simp only [hpos, if_false]
         refine ⟨?_, fun _ h => (by cases h)⟩
         intro e0' rot' h
         cases h
-        have fp := s.ef hl _ fr.prv_lt
+        have fp := hl.ef _ fr.prv_lt
         have hlt : (if s.fc (s.rv (s.prv (s.rv e0))) ≠ 0 then s.prv (s.rv (s.prv (s.rv e0)))
             else s.rv (s.prv (s.rv e0))) < s.nE := by
           split
-          · exact (s.ef hl _ fp.rv_lt).prv_lt
+          · exact (hl.ef _ fp.rv_lt).prv_lt
           · exact fp.rv_lt
         refine ⟨hlt, ?_⟩
         intro hne
         simp only [decide_eq_decide]; omega
 
 /-- **Soundness of the loop for every fuel**: any answer the model's loop produces is true. -/
-theorem locLoop_sound (hl : s.LinksOK) (hc : s.CcwAllEdges) (ht : s.FaceTriples) (q : Pt)
+theorem locLoop_sound (hl : s.LF) (hc : s.CcwAllEdges) (ht : s.FaceTriples) (q : Pt)
     (fuel e0 : Nat) (rot : Bool) (hinv : s.LocInv q e0 rot) (r : LocRes)
     (h : s.locLoop q fuel e0 rot = some r) : s.LocateAnswerOK q r := by
   induction fuel generalizing e0 rot with
@@ -329,28 +338,30 @@ theorem locLoop_sound (hl : s.LinksOK) (hc : s.CcwAllEdges) (ht : s.FaceTriples)
       exact ih e0' rot' (hs.1 e0' rot' hstep) h
 
 /-- **For every hint**: whatever `locateM` answers is geometrically true. -/
-theorem locateM_sound (hl : s.LinksOK) (ha : s.AnchorsOK) (hc : s.CcwAllEdges) (ht : s.FaceTriples)
+theorem locateM_sound (hl : s.LF) (ha : ∀ v e, s.vOut.getD v none = some e → e < s.nE)
+    (hc : s.CcwAllEdges) (ht : s.FaceTriples)
     (q : Pt) (hint : Nat) (r : LocRes) (h : s.locateM q hint = some r) : s.LocateAnswerOK q r := by
   unfold locateM at h
   simp only at h
   split at h
   · cases h
   · rename_i e0 hv
-    -- the out edge of any vertex in range is a valid half-edge
-    have he0 : e0 < s.nE := by
-      -- AnchorsOK covers vertices in range; out of range `getD` yields `none`, contradiction
-      by_cases hin : (if s.P (if hint < s.nV then hint else 0) = q then (if hint < s.nV then hint else 0)
-          else s.nnWalkM q (s.nV * s.nV + 4) (if hint < s.nV then hint else 0)) < s.nV
-      · have := ha.1 _ hin
-        rw [hv] at this
-        exact this.1
-      · exfalso
-        have hsz : s.vOut.size = s.nV := hl.2.2.2.1
-        rw [Array.getD_eq_getD_getElem?, Array.getElem?_eq_none (by omega)] at hv
-        cases hv
+    have he0 : e0 < s.nE := ha _ _ hv
     apply s.locLoop_sound hl hc ht q s.nE e0 _ ⟨he0, ?_⟩ r h
     intro hne
     simp only [decide_eq_decide]; omega
+
+/-- the vertex part of `AnchorsOK` bounds every `out_edge` entry -/
+theorem vbound_of_anchors (hl : s.LF) (ha : s.AnchorsOK) : ∀ v e, s.vOut.getD v none = some e → e < s.nE := by
+  intro v e hv
+  by_cases hin : v < s.nV
+  · have := ha.1 v hin
+    rw [hv] at this
+    exact this.1
+  · exfalso
+    have hsz : s.vOut.size = s.nV := hl.vsz
+    rw [Array.getD_eq_getD_getElem?, Array.getElem?_eq_none (by omega)] at hv
+    cases hv
 
 end St
 end Spade
